@@ -262,7 +262,14 @@ class TypeDeclarationStatement(Statement):
         if isinstance(self.parent, Function) and self.parent.name in self.entity_decls:
             assert self.parent.typedecl is None, repr(self.parent.typedecl)
             self.parent.typedecl = self
-            self.ignore = True
+            if len(self.entity_decls) == 1:
+                self.ignore = True
+            else:
+                # The statement declares other entities as well: only the
+                # function name moves to the FUNCTION statement.
+                self.entity_decls = [
+                    e for e in self.entity_decls if e != self.parent.name
+                ]
         if isinstance(self, Type):
             self.name = self.selector[1].lower()
             assert is_name(self.name), repr(self.name)
